@@ -276,7 +276,8 @@ impl Cfg {
             budget: j.get("budget").and_then(Value::as_u64).unwrap_or(300_000),
             obs_raw: obs.get("raw").and_then(Value::as_bool).unwrap_or(true),
             obs_rv: obs.get("rv").and_then(Value::as_bool).unwrap_or(true),
-            obs_sv: obs.get("sv").and_then(Value::as_bool).unwrap_or(true),
+            // listing through the session reads directories: with access-date updating on that would write (observer effect)
+            obs_sv: obs.get("sv").and_then(Value::as_bool).unwrap_or(true) && !j.get("atime").and_then(Value::as_bool).unwrap_or(false),
             wlog: j.get("wlog").and_then(Value::as_bool).unwrap_or(false),
         }
     }
